@@ -109,6 +109,13 @@ CHECKS = {
    note="Not judged: bits of the Wrap token's RRC field (excluded from the checksum by RFC 4121 and not listed by the property). Payload and key bytes seeded.",
    technique="bounded-exhaustive enumeration of the token parameter space and of single-deviation neighbourhoods on the real code against a reference construction",
    engine="enum"),
+ "C18": dict(
+   category="model_checking",
+   text="The real spnego.Client.Do (with the real net/http client and its redirect logic) runs over a scripted RoundTripper while its Kerberos client talks to the simulated KDC: every server script consisting of a word of length <=4 (5 thorough) over {200, 401 bare Negotiate, 401 Negotiate with reject token, 401 Basic, 302 same host, 302 other host, 500} followed by each constant tail (19,607 / 137,256 scripts) with a POST body; every script of length <=2 x method {GET, HEAD, POST} x body size {0, 1, 64 KiB, 1 MiB} x SPN {explicit, URL-derived}; etype(6) x CNAME canonicalisation {none, mixed-case, other host} x how much of the body the server read before answering the challenge {all, half, none} x 6 challenge scripts x 3 body sizes. Oracle: Do returns within 32 requests (the transport ends a run at 64 so that non-termination is observed); after a bare 401 Negotiate the next request goes to the same URL with a token an independent acceptor (strict DER + reference decoders and crypto + the KDC's key database) accepts for the intended SPN; the re-sent body is byte-identical to the original; the result is the server's final response or an error.",
+   design="DESIGN.md 2/C18",
+   note="Body identity is judged for retries of the original request (method and URL unchanged); what net/http does to method and body on a 302 is HTTP's business. Guarded worker processes; virtual clock; in-memory network with scripted CNAME lookups.",
+   technique="exhaustive enumeration of server response scripts (words up to a length + constant tail) and environment deviations on the real client against an independent acceptor",
+   engine="enum+guard"),
  "C19": dict(
    category="model_checking",
    text="PACs assembled, NDR-encoded and signed by an independent implementation (which reproduces the two captured KERB_VALIDATION_INFO samples byte for byte) from enumerated attribute models (5 name shapes x 0-3 groups x 0-2 extra SIDs x resource groups, plus the captured samples) x 5 signature types x 2 keys x RODC identifier present/absent: the real ProcessPACInfoBuffers must accept them and expose exactly the modelled names, ids, logon times and group SIDs; another key and every other declared checksum type must be rejected. Every single-bit flip of every byte of selected PACs per signature type and of the captured PAC (guarded worker processes: a crash, out-of-memory or stall is a violation), all 120 orders of five buffers, removal and duplication of each buffer. The same through Ticket.GetPACType / service.VerifyAPREQ for each etype (valid, bad signature, other key, missing buffer, PAC decoding disabled) comparing ADCredentials.",
